@@ -1,5 +1,21 @@
 /-
   C26 — File transfer and browsing stay inside the allowed paths.
+
+  "Every file or directory that file transfer or remote browsing reads, writes, creates, lists,
+   chmods or deletes lies inside the configured allowed paths, after symbolic links are resolved.
+   With no allowed paths configured, nothing is touched."
+
+  Model: MM/Model/C26.lean (validatePath and its helpers byte for byte, filepath.Clean / Match, and
+  the filesystem calls of each operation on the filesystem model of MM/Model/C27.lean).
+
+  The pinned code VIOLATES the statement (open finding C26-symlinked-path-component in
+  known/C26.json): the path is validated lexically, the kernel resolves symbolic links.  Hence:
+    * `C26_statement` is the full statement, `C26_refuted` its refutation from a concrete witness
+      (a symbolic link as a PARENT component of a download);
+    * what does hold: `C26_empty_allows_nothing` / `C26_empty_touches_nothing`, `C26_lexical`,
+      `C26_prefix_componentwise`, `C26_glob_ancestor` (every accepted path is lexically inside an
+      allowed pattern) and `C26_partial` (no symbolic link on the requested path ⇒ the operation
+      touches exactly the validated path).
 -/
 import MM.Lemmas.C26
 
@@ -18,5 +34,188 @@ theorem C26_empty_allows_nothing (nfc : Bytes → Bytes) (c : Cfg) (path : Bytes
     · split
       · simp
       · simp [h]
+
+/-- A request either fails before anything is done, or passed validation and is dispatched. -/
+theorem runOp_cases (nfc : Bytes → Bytes) (fu : Nat) (c : Cfg) (fs : FS) (op : Op) (path : Bytes) :
+    (∃ e, runOp nfc fu c fs op path = failR fs e) ∨
+    (validatePath nfc c path = .ok ∧ runOp nfc fu c fs op path = dispatch nfc fu c fs op path) := by
+  unfold runOp
+  split
+  · exact Or.inl ⟨_, rfl⟩
+  · split
+    · exact Or.inl ⟨_, rfl⟩
+    · cases hv : validatePath nfc c path with
+      | ok => exact Or.inr ⟨rfl, rfl⟩
+      | dangerous => exact Or.inl ⟨_, rfl⟩
+      | notAbs => exact Or.inl ⟨_, rfl⟩
+      | traversal => exact Or.inl ⟨_, rfl⟩
+      | emptyList => exact Or.inl ⟨_, rfl⟩
+      | notAllowed => exact Or.inl ⟨_, rfl⟩
+
+/-- … and therefore no operation touches anything or changes the filesystem. -/
+theorem C26_empty_touches_nothing (nfc : Bytes → Bytes) (fu : Nat) (c : Cfg) (fs : FS) (op : Op)
+    (path : Bytes) (h : c.allowed = []) :
+    (runOp nfc fu c fs op path).touched = [] ∧ (runOp nfc fu c fs op path).fs = fs := by
+  rcases runOp_cases nfc fu c fs op path with ⟨e, he⟩ | ⟨hv, _⟩
+  · rw [he]; exact ⟨rfl, rfl⟩
+  · exact absurd hv (C26_empty_allows_nothing nfc c path h)
+
+/-- What an accepted path satisfies, lexically. -/
+theorem C26_lexical (nfc : Bytes → Bytes) (c : Cfg) (path : Bytes) (h : validatePath nfc c path = .ok) :
+    dangerous path = false ∧ isAbs (normalize nfc path) = true ∧
+    hasInfix [DOT, DOT] (normalize nfc path) = false ∧ c.allowed ≠ [] ∧
+    ∃ pat ∈ c.allowed, pat = [0x2a] ∨ pathAllowed nfc (normalize nfc path) pat = true := by
+  unfold validatePath at h
+  split at h
+  · cases h
+  · rename_i hd
+    dsimp only at h
+    split at h
+    · cases h
+    · rename_i ha
+      split at h
+      · cases h
+      · rename_i ht
+        split at h
+        · cases h
+        · rename_i hl
+          split at h
+          · rename_i hany
+            refine ⟨by simpa using hd, by simpa using ha, by simpa using ht, ?_, ?_⟩
+            · intro he; apply hl; simp [he]
+            · obtain ⟨pat, hm, hp⟩ := List.any_eq_true.mp hany
+              refine ⟨pat, hm, ?_⟩
+              rcases Bool.or_eq_true _ _ |>.mp hp with h1 | h1
+              · exact Or.inl (by simpa using h1)
+              · exact Or.inr h1
+          · cases h
+
+/-- Prefix-form patterns (a plain directory, or `dir/**`) are matched component-wise. -/
+theorem C26_prefix_componentwise (nfc : Bytes → Bytes) (path pre : Bytes)
+    (h : underPrefix nfc path pre = true) (hns : hasSuffix [SL] (normalize nfc pre) = false) :
+    splitOn SL (normalize nfc pre) <+: splitOn SL (normalize nfc path) :=
+  underPrefix_componentwise nfc path pre h hns
+
+/-- A glob pattern accepts a path only if the path or one of its ancestors matches the glob. -/
+theorem C26_glob_ancestor (nfc : Bytes → Bytes) (path pat : Bytes)
+    (hg : globChars (normalize nfc pat) = true)
+    (hs : hasSuffix [SL, 0x2a, 0x2a] (normalize nfc pat) = false)
+    (h : pathAllowed nfc path pat = true) :
+    ∃ k, matchOK (normalize nfc pat) (ancestor k path) = true := by
+  unfold pathAllowed at h
+  simp only [hs, Bool.false_eq_true, if_false, hg, if_true, Bool.or_eq_true] at h
+  rcases h with h | h
+  · exact ⟨0, h⟩
+  · exact parentWalk_spec _ _ _ h
+
+/-! ### the statement, its refutation -/
+
+/-- physical path `q` is inside the configured allowed paths -/
+def physAllowed (c : Cfg) (q : Path) : Prop := validatePath (fun b => b) c (strOfPath q) = .ok
+
+def C26_statement : Prop :=
+  ∀ (nfc : Bytes → Bytes) (fu : Nat) (c : Cfg) (fs : FS) (op : Op) (path : Bytes),
+    ∀ q ∈ (runOp nfc fu c fs op path).touched, physAllowed c q
+
+/-- names: d = 356, l = 364, s = 371, k = 363 (`encName` of one-letter names) -/
+def wFS : FS :=
+  { ents := [([356], .dir), ([356, 364], .sym ⟨false, [0, 371]⟩), ([371], .dir), ([371, 363], .file 1)],
+    data := [(1, 7)], next := 2 }
+/-- allowed_paths = ["/d"] -/
+def wCfg : Cfg := { enabled := true, allowed := [[0x2f, 0x64]] }
+/-- "/d/l/k": lexically below /d; l -> ../s, so the kernel opens /s/k -/
+def wPath : Bytes := [0x2f, 0x64, 0x2f, 0x6c, 0x2f, 0x6b]
+
+set_option maxRecDepth 20000 in
+theorem C26_refuted : ¬ C26_statement := by
+  intro h
+  have h1 := h (fun b => b) 40 wCfg wFS .download wPath [371, 363] (by decide)
+  revert h1
+  unfold physAllowed
+  decide
+
+/-! ### what holds when no symbolic link lies on the requested path -/
+
+/-- `q` is the requested path itself, or another name (hard link) of the same file -/
+def touchedOK (fs : FS) (p q : Path) : Prop :=
+  q = p ∨ ∃ i, fs.lookup p = some (.file i) ∧ (q, Kind.file i) ∈ fs.ents
+
+theorem aliases_ok {fs : FS} {p q : Path} (h : q ∈ aliases fs p) : touchedOK fs p q := by
+  unfold aliases at h
+  split at h
+  · rename_i i hl
+    right
+    refine ⟨i, hl, ?_⟩
+    obtain ⟨e, he, hq⟩ := List.mem_map.mp h
+    have hf := List.mem_filter.mp he
+    have h2 : e.2 = .file i := by simpa using hf.2
+    have : e = (q, Kind.file i) := by cases e; simp at hq h2; simp [hq, h2]
+    rw [← this]; exact hf.1
+  · left; simpa using h
+
+/-- For a request whose path is already clean, has no ".." and no trailing slash, and none of
+    whose components is a symbolic link, download / list / stat / chmod / non-recursive delete touch
+    only the requested (validated) path, or hard links of it. -/
+theorem C26_partial (nfc : Bytes → Bytes) (fu : Nat) (c : Cfg) (fs : FS) (op : Op) (path : Bytes)
+    (hop : op = .download ∨ op = .list ∨ op = .stat ∨ op = .chmod ∨ op = .delete false)
+    (hclean : clean path = path) (htr : trailingDir path = false)
+    (hdd : NoDD (compsOf path)) (hclr : Clear fs (compsOf path) (compsOf path).length) :
+    ∀ q ∈ (runOp nfc fu c fs op path).touched, touchedOK fs (compsOf path) q := by
+  have hcl1 : Clear fs (compsOf path) ((compsOf path).length - 1) := hclr.le (by omega)
+  have hst : ∀ {q k}, stat fs fu (compsOf path) = .found q k → q = compsOf path :=
+    fun h => (stat_found hdd hclr h).1
+  have hls : ∀ {q k}, lstat fs fu (compsOf path) = .found q k → q = compsOf path :=
+    fun h => (lstat_found hdd hcl1 h).1
+  intro q hq
+  rcases runOp_cases nfc fu c fs op path with ⟨e, he⟩ | ⟨_, hd⟩
+  · rw [he] at hq; simp [failR] at hq
+  · rw [hd] at hq
+    rcases hop with rfl | rfl | rfl | rfl | rfl
+    · -- download
+      obtain ⟨k, hs⟩ := opDownload_touched hq
+      rw [hclean] at hs
+      exact Or.inl (hst hs)
+    · -- list
+      obtain ⟨k, hs⟩ := opList_touched hq
+      rw [hclean] at hs
+      exact Or.inl (hst hs)
+    · -- stat
+      rcases opStat_touched hq with ⟨k, hs⟩ | ⟨k, hs⟩
+      · rw [hclean] at hs; exact Or.inl (hst hs)
+      · rw [hclean] at hs; exact Or.inl (hls hs)
+    · -- chmod
+      obtain ⟨q0, k, hs, hal⟩ := opChmod_touched hq
+      rw [hclean] at hs
+      rw [hst hs] at hal
+      exact aliases_ok hal
+    · -- delete, not recursive
+      cases hl : lstat fs fu (compsOf (clean path)) with
+      | found q0 k =>
+        have hl' := hl
+        rw [hclean] at hl'
+        have hk : ∀ t, k ≠ .sym t := by
+          intro t hk
+          subst hk
+          have hne : compsOf path ≠ [] := by
+            intro he
+            have := (lstat_found hdd hcl1 hl').2.2 he
+            cases this
+          have hlk := (lstat_found hdd hcl1 hl').2.1 hne
+          have hpos := List.length_pos_iff.mpr hne
+          have := hclr ((compsOf path).length - 1) (by omega) t
+          have hlen : (compsOf path).length - 1 + 1 = (compsOf path).length := by omega
+          rw [hlen, List.take_length] at this
+          exact this hlk
+        exact Or.inl ((opDelete_touched hl hk hq).trans (hls hl'))
+      | missing par n => exact (opDelete_notfound (fun q0 k h => by rw [hl] at h; cases h) hq).elim
+      | err => exact (opDelete_notfound (fun q0 k h => by rw [hl] at h; cases h) hq).elim
+
+/-! ### non-vacuity -/
+
+/-- "/d" itself: allowed, no symbolic link on it; listing it touches exactly /d. -/
+example : (runOp (fun b => b) 40 wCfg wFS .list [0x2f, 0x64]).touched = [[356]] := by decide
+example : validatePath (fun b => b) wCfg [0x2f, 0x64, 0x2f, 0x6c, 0x2f, 0x6b] = .ok := by decide
+example : validatePath (fun b => b) wCfg [0x2f, 0x64, 0x64] = .notAllowed := by decide   -- "/dd" is not under "/d"
+example : validatePath (fun b => b) wCfg [0x2f, 0x73, 0x2f, 0x6b] = .notAllowed := by decide   -- "/s/k"
 
 end MM.C26
